@@ -152,7 +152,7 @@ func main() {
 		}
 	}
 	// ---- generate (sequentially: the generator keeps package-level counters)
-	for _, u := range units {
+	for ui, u := range units {
 		dir := filepath.Join(base, u.pkg)
 		must(os.MkdirAll(dir, 0755))
 		must(os.WriteFile(filepath.Join(dir, "decl.go"), []byte(u.src), 0644))
@@ -172,7 +172,13 @@ func main() {
 					u.obs["gen"] = "panic"
 				}
 			}()
-			if err := compile(fconf(u.pkg + "_ins")); err != nil {
+			first := fconf(u.pkg + "_ins")
+			if emitMode && ui%2 == 1 {
+				// the runner of generated inspectors links, unit by unit in turn, what the file target (go/ast parser) and what
+				// the package target (go/types loader) emit, so that both front ends stay under the emitter streams
+				first = &inspector.Config{Target: inspector.TargetPackage, Package: imp, Destination: "gen/" + u.pkg + "_ins"}
+			}
+			if err := compile(first); err != nil {
 				u.obs["gen"] = "err"
 				return
 			}
